@@ -63,7 +63,7 @@ func loadRepo() *Repo {
 				}
 			}
 		})
-		prog, _ := ssautil.AllPackages(pkgs, ssa.InstantiateGenerics|ssa.GlobalDebug)
+		prog, _ := ssautil.AllPackages(pkgs, ssa.InstantiateGenerics)
 		prog.Build()
 		r.Prog = prog
 		for path, p := range r.Pkgs {
